@@ -234,9 +234,9 @@ static void gen_exhaustive(Ctx& ctx, const int* alpha, const int* kinds, int nk)
             ctx.eval(Json::object().set("h", h));
         }
     }
-    if (ctx.quick()) {   // 2e4 random length-8 histories
+    if (ctx.quick()) {   // 1.5e5 random length-8 histories
         Rng r(mix(ctx.seed, 0x10C));
-        for (int k = 0; k < 20000; ++k) {
+        for (int k = 0; k < 150000; ++k) {
             std::vector<int> h;
             for (int i = 0; i < 8; ++i) h.push_back(code(kinds[r.range(0, nk - 1)], alpha[r.range(0, 5)]));
             if (!ctx.mine()) continue;
